@@ -46,7 +46,7 @@ def cells(tier):
     # plain callbacks whose return value is an awaitable (a background flush() they started): return values are ignored
     for size in [2, "inf"]:
         sc = scen(pool(size), [[A("A", 2)], [cancel(rid("A", 0))], [GAC], [UNTIL]], outcomes=["ret"], ecb="retfut", ccb="retfut")
-        out.append(cell(f"s{size} A2 cancel0 gac until cbs-return-flush-future", sc, MON))
+        out.append(cell(f"s{size} A2 cancel0 gac until cbs-return-flush-future", sc, MON, own_only=True))
     # cancellations with the optional msg argument (also of tasks that have not had their first step) before the close
     for size in [1, 2]:
         sc = scen(pool(size), [[A("A", 2)], [["cancel", rid("A", 1), {"msg": "why"}]], [GAC], [UNTIL]], outcomes=["ret"], ecb="plain", ccb="plain")
